@@ -645,7 +645,103 @@ fn oracle_c04(plan: &Plan, built: &Built, auth: &Repaired, unauth: &Repaired, fa
     Ok(())
 }
 
+/// A seekable source that fails ONCE with a hard I/O error at the `at`-th read counted from the moment it is armed.
+struct ErrOnceSeek {
+    data: Vec<u8>,
+    pos: u64,
+    armed: std::sync::Arc<std::sync::atomic::AtomicIsize>,
+}
+impl Read for ErrOnceSeek {
+    fn read(&mut self, buf: &mut [u8]) -> std::io::Result<usize> {
+        use std::sync::atomic::Ordering;
+        let left = self.armed.load(Ordering::Relaxed);
+        if left >= 0 {
+            self.armed.store(left - 1, Ordering::Relaxed);
+            if left == 0 {
+                return Err(std::io::Error::new(std::io::ErrorKind::Other, "medium error"));
+            }
+        }
+        let p = (self.pos as usize).min(self.data.len());
+        let n = buf.len().min(self.data.len() - p);
+        buf[..n].copy_from_slice(&self.data[p..p + n]);
+        self.pos += n as u64;
+        Ok(n)
+    }
+}
+impl std::io::Seek for ErrOnceSeek {
+    fn seek(&mut self, s: std::io::SeekFrom) -> std::io::Result<u64> {
+        let t = match s {
+            std::io::SeekFrom::Start(n) => n as i128,
+            std::io::SeekFrom::Current(d) => self.pos as i128 + d as i128,
+            std::io::SeekFrom::End(d) => self.data.len() as i128 + d as i128,
+        };
+        if t < 0 {
+            return Err(std::io::Error::new(std::io::ErrorKind::InvalidInput, "negative position"));
+        }
+        self.pos = t as u64;
+        Ok(self.pos)
+    }
+}
+
+/// Reading CONTINUED after the source failed once inside a chunk (normal reader, encrypted archives): whatever
+/// bytes the reads return, concatenated, are a prefix of the file - never undecrypted or misplaced bytes.
+fn c04_read_after_source_error(rng: &mut Rng, tier: &str, out: &mut Out) {
+    let n = if tier == "thorough" { 6 } else { 2 };
+    for (ai, (plan, built, _)) in c04_archives(rng, tier).iter().take(n).enumerate() {
+        let mut msg: Option<String> = None;
+        'k: for k in 0..24isize {
+            for fi in 0..plan.names.len() {
+                let armed = std::sync::Arc::new(std::sync::atomic::AtomicIsize::new(-1));
+                let r = catch(|| -> Result<(), String> {
+                    let mut cfg = mla::config::ArchiveReaderConfig::new();
+                    cfg.add_private_keys(&built.privs);
+                    let mut rd = mla::ArchiveReader::from_config(ErrOnceSeek { data: built.bytes.clone(), pos: 0, armed: armed.clone() }, cfg).map_err(|e| format!("open: {e:?}"))?;
+                    let nm = String::from_utf8_lossy(&plan.names[fi]).into_owned();
+                    armed.store(k, std::sync::atomic::Ordering::Relaxed);
+                    let Ok(Some(mut f)) = rd.get_file(nm) else { return Ok(()) };
+                    let mut got = Vec::new();
+                    let mut buf = [0u8; 29];
+                    let mut errors = 0;
+                    for _ in 0..400 {
+                        match f.data.read(&mut buf) {
+                            Ok(0) => break,
+                            Ok(m) => got.extend_from_slice(&buf[..m]),
+                            Err(_) => {
+                                errors += 1;
+                                if errors > 3 {
+                                    break;
+                                }
+                            }
+                        }
+                    }
+                    if !built.contents[fi].starts_with(&got) {
+                        return Err(format!("file {fi}: the bytes returned by reads continued after a source error at read {k} are not a prefix of the file ({} bytes returned)", got.len()));
+                    }
+                    Ok(())
+                });
+                match r {
+                    Ok(Ok(())) => {}
+                    Ok(Err(e)) => { msg = Some(e); break 'k; }
+                    Err(p) => { msg = Some(format!("panic: {p}")); break 'k; }
+                }
+            }
+        }
+        out.case(&Case {
+            id: format!("c04-read-after-source-error-{ai}"),
+            model_fn: "",
+            args: vec![],
+            imp: json!([]),
+            oracle_ok: msg.is_none(),
+            oracle_msg: msg.unwrap_or_default(),
+            class: "reads continued after a source error".into(),
+            nontrivial: true,
+            meta: json!({"archive": ai}),
+        });
+    }
+}
+
 pub fn c04_cases(rng: &mut Rng, tier: &str, out: &mut Out) {
+    c04_read_after_source_error(rng, tier, out);
     let model_stride = if tier == "thorough" { 31 } else { 23 };
     let mut counter = 0usize;
     for (ai, (plan, built, akind)) in c04_archives(rng, tier).iter().enumerate() {
